@@ -10,6 +10,8 @@ import EmuVerif.Props.C27
 #print axioms EmuVerif.Props.C27.current_exception_safe
 #print axioms EmuVerif.Props.C27.finallyReplace_counterexample
 #print axioms EmuVerif.Props.C27.finallyReplace_same_ops
+#print axioms EmuVerif.Props.C27.refused_replace_safe
+#print axioms EmuVerif.Props.C27.copyFallback_counterexample
 #print axioms EmuVerif.Props.C27.aliased_counterexample
 #print axioms EmuVerif.Props.C27.appended_temp_name_distinct
 #print axioms EmuVerif.Props.C27.threeStep_counterexample
